@@ -323,6 +323,15 @@ func (m *C14Mon) OnBlock(blk *hist.Block) []Finding {
 			if ce.Sign() != 0 {
 				out = append(out, Finding{"C14", "C14/funds/escrow-left-after-finalisation", fmt.Sprintf("block %d: proposal %s finalised but %s is still in escrow", blk.H, id[:10], ce)})
 			}
+			// ... and no contributor keeps a record of money that has been paid out
+			for key := range blk.Cur {
+				if strings.HasPrefix(key, "propFunds_i_"+id+"_") {
+					if a := amountAt(blk.Cur, key); a.Sign() != 0 {
+						out = append(out, Finding{"C14", "C14/funds/funder-record-left-after-finalisation", fmt.Sprintf("block %d: proposal %s is finalised and its funds are distributed, but %s still records a contribution of %s", blk.H, id[:10], key[len("propFunds_i_")+len(id)+1:], a)})
+						break
+					}
+				}
+			}
 		} else if ce.Cmp(want) != 0 {
 			out = append(out, Finding{"C14", "C14/funds/escrow-accounting", fmt.Sprintf("block %d: escrow of proposal %s is %s; previous %s plus contributions %s minus withdrawals %s gives %s", blk.H, id[:10], ce, pe, get(contribNow, id), get(withdrawNow, id), want)})
 		}
